@@ -13,13 +13,18 @@ cd "$wt" || exit 2
 git checkout -q -- . ; git clean -fdq -e target
 git checkout -q --detach "$(git -C /repo rev-parse HEAD)" 2>/dev/null
 log="$seed/confirm.log"; : > "$log"
+# re-base the patch onto the current HEAD by a 3-way merge against the blobs it names (plain `git apply` can place a
+# hunk in a look-alike function when later commits shifted the file); fall back to the patch as delivered
+rb="$seed/patch.rebased.diff"
+if git apply --3way "$seed/patch.diff" >>"$log" 2>&1; then git diff HEAD > "$rb"; else cp "$seed/patch.diff" "$rb"; fi
+git reset -q --hard; git clean -fdq -e target
 git apply "$seed/demo.diff" >>"$log" 2>&1 || { echo "CONFIRM $name demo.diff does not apply"; exit 1; }
 timeout 1500 bash "$seed/run_demo.sh" >>"$log" 2>&1; d0=$?
-git apply "$seed/patch.diff" >>"$log" 2>&1 || { echo "CONFIRM $name patch.diff does not apply"; git checkout -q -- .; git clean -fdq -e target; exit 1; }
+git apply "$rb" >>"$log" 2>&1 || { echo "CONFIRM $name patch.diff does not apply"; git checkout -q -- .; git clean -fdq -e target; exit 1; }
 timeout 1500 bash "$seed/run_demo.sh" >>"$log" 2>&1; d1=$?
 # existing suite without the demo files (patch only)
 git checkout -q -- . ; git clean -fdq -e target
-git apply "$seed/patch.diff" >>"$log" 2>&1
+git apply "$rb" >>"$log" 2>&1
 echo "=== suite ===" >>"$log"
 timeout 2400 cargo test --workspace --no-fail-fast --offline --lib --bins --tests >>"$log" 2>&1; s=$?
 git checkout -q -- . ; git clean -fdq -e target
